@@ -82,11 +82,13 @@ func randUpdate(r *rand.Rand, svcs, addrs []string) update {
 func runRandom(id int, seed int64, nUpd, evtCap int) (res randomResult) {
 	r := rand.New(rand.NewSource(seed))
 	res.ID, res.Seed = id, seed
-	svcs := []string{"s1", "s2"}
+	// service names: plain ones, or names with characters a lower layer treats specially; "a.b" and "a_b" together
+	// must stay two services
+	svcs := [][]string{{"s1", "s2"}, {"a.b", "a_b"}, {"A.b", "a-b"}, {"a/b", "a.b"}}[r.Intn(4)]
 	addrs := []string{"a1", "a2", "a3"}
 	res.Static = []string{}
 	if r.Intn(4) == 0 {
-		res.Static = []string{"s1"}
+		res.Static = []string{svcs[0]}
 	}
 	pCtl := []float64{0.15, 0.4, 0.7}[r.Intn(3)] // relative speed of the controller
 	w, err := newWorld(svcs, res.Static, evtCap)
